@@ -133,7 +133,7 @@ PROPS["C03"] = {
     "campaign": camp([("lifecycle", 500), ("rollback", 400), ("mixed", 300), ("damage", 200), ("chaos", 200)],
                      [("lifecycle", 8000), ("rollback", 6000), ("mixed", 4000), ("damage", 3000), ("chaos", 3000), ("signing", 3000), ("release", 2000)]),
     "assumptions": ["InitKey: every effective initialisation of a history configures the same public key",
-                    "SameBytes: the server does not re-issue the number of the current last good patch with different bytes (re-installing that number rewrites its artifact with what was downloaded)",
+                    "a server that re-issues the number of the last good patch with OTHER bytes ends the tracking of that patch (a re-install writes what was downloaded and verified - C05); with the same bytes the artifact is unchanged and stays tracked",
                     "the last good patch is tracked from a success report after which every record of its number matches the artifact in place; outside damage to it or to the state files ends the tracking (as the property says)"],
 }
 
@@ -142,7 +142,7 @@ PROPS["C18"] = {
     "fields": ["ret", "pj", "pd", "sj"],
     "campaign": camp([("lifecycle", 500), ("mixed", 400), ("rollback", 300), ("chaos", 200), ("damage", 150)],
                      [("lifecycle", 8000), ("mixed", 5000), ("rollback", 5000), ("chaos", 3000), ("damage", 3000), ("signing", 2000), ("release", 2000)]),
-    "assumptions": ["as C03 (one configured key; the server does not re-issue the last good number with other bytes) for the 'last good patch before launch start' clause",
+    "assumptions": ["as C03 (one configured key) for the 'last good patch before launch start' clause",
                     "the running patch is the selection a launch start recorded as booting while every record of that number matched the artifact in place; things that happen to that patch itself end the tracking: its boot is reported failed, the server rolls it back or re-issues (re-installs) its number, its artifact or the state files are damaged from outside, the release changes, the process ends"],
 }
 
